@@ -54,6 +54,8 @@ func main() {
 		genGarbageCases(r, *n)
 	case "reserved":
 		genReservedCases()
+	case "poke":
+		genPokeCases(r, *n)
 	default:
 		fmt.Fprintln(os.Stderr, "unknown kind", *kind)
 		os.Exit(2)
